@@ -25,6 +25,7 @@ def run(ctx, rep):
     for cfg in ctx.tera_configs():
         crate = ctx.crate(cfg)
         check_src(crate, rep, cfg)
+        check_parser_source(crate, rep, cfg)
         check_chunkname(crate, rep, cfg)
         check_setsrc(crate, rep, cfg)
         check_note(crate, rep, cfg)
@@ -124,6 +125,45 @@ def check_src(crate, rep, cfg):
     for bb, t in find_calls(pn, ["errors::ReportError::add_note"]):
         ok = all(".filename" in l.projs for l in tr3.operand(t["args"][2])) and all(".source" in l.projs for l in tr3.operand(t["args"][3]))
         rep.add("C12.SRC", "C12.SRC:parser-note", ok, pn.where(bb), "parser notes use the parser's own filename and source" + ("" if ok else " — VIOLATED"))
+
+
+def check_parser_source(crate, rep, cfg):
+    """C12.SRC — spans are offsets into the text the tokenizer was given; reports print them against the text Template::new stored. They are
+    the same text only if Parser::new hands its `source` parameter to the tokenizer as it is (no trimming, BOM stripping, normalising) and
+    Template::new gives the parser the very string it stores."""
+    pn = crate.one("parsing::parser::Parser::<'a>::new")
+    rep.analysed(pn)
+    tr = Tracer(pn, transparent=set())
+    toks = [(bb, t) for bb, t in pn.calls() if callee_def(t).endswith("lexer::tokenize")]
+    ok = len(toks) == 1
+    why = "%d tokenize calls" % len(toks)
+    if ok:
+        ls = tr.operand(toks[0][1]["args"][0])
+        ok = bool(ls) and all(l.kind == "param" and l.detail == 2 and not [p for p in l.projs if p not in ("&", "deref")] for l in ls)
+        why = "the tokenizer's input is %s" % sorted(leaf_str(l) for l in ls)[:2]
+    if ok:
+        aggs = list(find_aggs(pn, "parsing::parser::Parser", "Parser"))
+        ok = len(aggs) == 1
+        if ok:
+            rv = aggs[0][2]["rv"]
+            ls = tr.operand(rv["ops"][rv["fields"].index("source")])
+            ok = bool(ls) and all(l.kind == "param" and l.detail == 2 and not [p for p in l.projs if p not in ("&", "deref")] for l in ls)
+            why = "Parser.source is %s" % sorted(leaf_str(l) for l in ls)[:2]
+    rep.add("C12.SRC", "C12.SRC:Parser::new:source-as-given", ok, pn.where(toks[0][0]) if toks else pn.where(0), "Parser::new tokenizes, and keeps for its own notes, exactly the `source` it "
+            "was given (spans index the text that reports print)" + ("" if ok else " — VIOLATED: " + why))
+    tn = crate.one("template::Template::new")
+    ttr = Tracer(tn)
+    pcs = [(bb, t) for bb, t in tn.calls() if callee_def(t).endswith("Parser::<'a>::new")]
+    ok = len(pcs) == 1
+    if ok:
+        pl = {(l.kind, l.detail) for l in ttr.operand(pcs[0][1]["args"][1]) if l.kind != "cycle"}
+        stored = set()
+        for bb, idx, st in find_aggs(tn, "template::Template", "Template"):
+            rv = st["rv"]
+            stored |= {(l.kind, l.detail) for l in ttr.operand(rv["ops"][rv["fields"].index("source")]) if l.kind != "cycle"}
+        ok = bool(pl) and bool(stored) and pl == stored and all(k == "param" for k, d in pl)
+    rep.add("C12.SRC", "C12.SRC:Template::new:parses-what-it-stores", ok, tn.where(pcs[0][0]) if pcs else tn.where(0), "Template::new parses the `source` parameter it stores in "
+            "Template.source" + ("" if ok else " — VIOLATED"))
 
 
 def rrec_field(tr, op):
